@@ -297,6 +297,9 @@ def run(ck, fb, fbd):
         ck.count("stale_window_calls", n_window)
 
     fallback_rule(ck, fb, cm)
+    # add_edge without duplicates has a cache-guided and a linear-scan sibling: both must find the edge in either orientation
+    from .c11 import dedup_rule
+    dedup_rule(ck, fb)
 
     # ---------------- renumbering of caches/definitions must not depend on an unrelated kind (shared with C02)
     from . import lockstep
